@@ -52,19 +52,25 @@
        (not (excluded r c)))) :pattern ((inA r RS off n c)))))
 ;;@ axiom INA-elim trigger=inA :: consequence of INA-def: a member of the alphabet is not excluded
 (assert (forall ((r CharRecipe) (RS (Array Int Str)) (off Int) (n Int) (c Str)) (! (=> (inA r RS off n c) (not (excluded r c))) :pattern ((inA r RS off n c)))))
-; hitsSrc(r, src, pw): the required source set src, if it still has a non-excluded member, is hit by pw
-(define-fun hitsSrc ((r CharRecipe) (src Str) (pw Str)) Bool
-  (=> (exists ((c Str)) (and (incs src c) (not (excluded r c))))
-      (exists ((c Str)) (and (incs src c) (not (excluded r c)) (incs pw c)))))
+; hits(r, src, pw): the required source set src, if it still has a non-excluded member, is hit by pw.
+; Opaque (so that equal arguments are identified by congruence); revealed with "uses HITS-def".
+(declare-fun hits (CharRecipe Str Str) Bool)
+(declare-fun hitsw (CharRecipe Str Str) Str)   ; a non-excluded member of src that occurs in pw, when there is one
+;;@ axiom HITS-def optin trigger=hits :: DEFINITION of hits: if src has a non-excluded member then pw contains a non-excluded member of src (hitsw names one)
+(assert (forall ((r CharRecipe) (src Str) (pw Str)) (! (= (hits r src pw)
+  (or (forall ((c Str)) (! (=> (incs src c) (excluded r c)) :pattern ((incs src c))))
+      (and (incs src (hitsw r src pw)) (not (excluded r (hitsw r src pw))) (incs pw (hitsw r src pw))))) :pattern ((hits r src pw)))))
+;;@ axiom HITS-intro optin trigger=hits,incs :: consequence of the definition: any non-excluded member of src occurring in pw witnesses hits
+(assert (forall ((r CharRecipe) (src Str) (pw Str) (c Str)) (! (=> (and (incs src c) (not (excluded r c)) (incs pw c)) (hits r src pw)) :pattern ((hits r src pw) (incs src c) (incs pw c)))))
 ; meets(r, RS, off, n, pw): pw contains a character from every required set that still has a non-excluded member.
 ; Opaque; revealed with "uses MEETS-def".
 (declare-fun meets (CharRecipe (Array Int Str) Int Int Str) Bool)
 ;;@ axiom MEETS-def optin trigger=meets :: DEFINITION of the spec predicate meets (requirements of a character recipe, from the statement of C03)
 (assert (forall ((r CharRecipe) (RS (Array Int Str)) (off Int) (n Int) (pw Str)) (! (= (meets r RS off n pw)
-  (and (forall ((k Int)) (=> (and (<= 0 k) (< k n) (not (= (select RS (idx off k)) eps))) (hitsSrc r (select RS (idx off k)) pw)))
-       (=> (bitset (CharRecipe_Require r) 1) (hitsSrc r cls_upper pw)) (=> (bitset (CharRecipe_Require r) 2) (hitsSrc r cls_lower pw))
-       (=> (bitset (CharRecipe_Require r) 4) (hitsSrc r cls_digits pw)) (=> (bitset (CharRecipe_Require r) 8) (hitsSrc r cls_symbols pw))
-       (=> (bitset (CharRecipe_Require r) 16) (hitsSrc r cls_ambiguous pw)))) :pattern ((meets r RS off n pw)))))
+  (and (forall ((k Int)) (! (=> (and (<= 0 k) (< k n) (not (= (select RS (idx off k)) eps))) (hits r (select RS (idx off k)) pw)) :pattern ((select RS (idx off k)))))
+       (=> (bitset (CharRecipe_Require r) 1) (hits r cls_upper pw)) (=> (bitset (CharRecipe_Require r) 2) (hits r cls_lower pw))
+       (=> (bitset (CharRecipe_Require r) 4) (hits r cls_digits pw)) (=> (bitset (CharRecipe_Require r) 8) (hits r cls_symbols pw))
+       (=> (bitset (CharRecipe_Require r) 16) (hits r cls_ambiguous pw)))) :pattern ((meets r RS off n pw)))))
 ; a set of one-character valid strings
 (define-fun charset ((S (Array Str Bool))) Bool (forall ((c Str)) (! (=> (select S c) (and (= (clen c) 1) (utf8ok c))) :pattern ((select S c)))))
 (define-fun nodupS ((s Str)) Bool (forall ((i Int) (j Int)) (! (=> (and (<= 0 i) (< i j) (< j (clen s))) (not (= (select (pieces s) i) (select (pieces s) j)))) :pattern ((select (pieces s) i) (select (pieces s) j)))))
@@ -84,6 +90,17 @@
        (=> (bitset (CharRecipe_Require r) 16) (noReqSrc r cls_ambiguous)))) :pattern ((noReq r RS off n)))))
 ; quantities decided by the bounded check of C07 (uninterpreted here): functions of the public fields only
 (declare-fun alphaSize (CharRecipe (Array Int Str) Int Int) Int)      ; number of distinct characters in the alphabet
+; enumOf(A,o,n, r,RS,ro,rn): A[o..o+n) lists the alphabet of the recipe exactly once each (one valid character per entry)
+(declare-fun enumOf ((Array Int Str) Int Int CharRecipe (Array Int Str) Int Int) Bool)
+;;@ axiom ENUMOF-def optin trigger=enumOf :: DEFINITION of enumOf: a duplicate-free list of single valid characters whose elements are exactly the members of the alphabet
+(assert (forall ((A (Array Int Str)) (o Int) (n Int) (r CharRecipe) (RS (Array Int Str)) (ro Int) (rn Int)) (! (= (enumOf A o n r RS ro rn)
+  (and (forall ((i Int) (j Int)) (! (=> (and (<= 0 i) (< i j) (< j n)) (not (= (select A (idx o i)) (select A (idx o j))))) :pattern ((select A (idx o i)) (select A (idx o j)))))
+       (forall ((k Int)) (! (=> (and (<= 0 k) (< k n)) (and (inA r RS ro rn (select A (idx o k))) (= (clen (select A (idx o k))) 1) (utf8ok (select A (idx o k))))) :pattern ((select A (idx o k)))))
+       (forall ((c Str)) (! (=> (inA r RS ro rn c) (exists ((k Int)) (and (<= 0 k) (< k n) (= (select A (idx o k)) c)))) :pattern ((inA r RS ro rn c))))))
+  :pattern ((enumOf A o n r RS ro rn)))))
+;;@ axiom ALPHASIZE-card trigger=enumOf,alphaSize :: T-CARD / DEFINITION of alphaSize: the length of any exact duplicate-free enumeration of the alphabet; there are at most 1114240 distinct one-character strings (1114112 code points + 128 single invalid bytes)
+(assert (forall ((A (Array Int Str)) (o Int) (n Int) (r CharRecipe) (RS (Array Int Str)) (ro Int) (rn Int)) (! (=> (enumOf A o n r RS ro rn)
+  (and (= (alphaSize r RS ro rn) n) (<= n 1114240))) :pattern ((enumOf A o n r RS ro rn)))))
 (declare-fun entropyReq (CharRecipe (Array Int Str) Int Int) Real)    ; log2 of the number of strings meeting the requirements
 (declare-fun successProb (CharRecipe (Array Int Str) Int Int) Real)   ; fraction of unconstrained candidates that meet them
 
@@ -104,3 +121,16 @@
        (forall ((i Int) (j Int)) (! (=> (and (<= 0 i) (< i j) (< j n)) (not (strlt (select B (idx off j)) (select B (idx off i))))) :pattern ((select B (idx off i)) (select B (idx off j)))))
        (forall ((k Int)) (! (=> (or (< k off) (>= k (+ off n))) (= (select B k) (select A k))) :pattern ((select B k))))))
   :pattern ((sortedperm A B off n)))))
+
+; x & b for the five class bits (the mask comes from a map key, so it is not a literal in the code)
+;;@ axiom BAND-bit trigger=band32 :: A-BV (lemma BAND-bit): x & 2^k = 2^k * bit k of x, for the five class bits
+(assert (forall ((x Int)) (! (=> (<= 0 x) (and (= (band32 x 1) (* 1 (mod (div x 1) 2))) (= (band32 x 2) (* 2 (mod (div x 2) 2))) (= (band32 x 4) (* 4 (mod (div x 4) 2)))
+   (= (band32 x 8) (* 8 (mod (div x 8) 2))) (= (band32 x 16) (* 16 (mod (div x 16) 2))))) :pattern ((band32 x 1)) :pattern ((band32 x 2)) :pattern ((band32 x 4)) :pattern ((band32 x 8)) :pattern ((band32 x 16)))))
+;;@ lemma BAND-bit props=C02,C03 :: bit-vector fact behind axiom BAND-bit: x & 2^k = 2^k * ((x >> k) & 1) on 32-bit values
+(set-logic QF_BV)
+(declare-const x (_ BitVec 32))
+(declare-const k (_ BitVec 32))
+(assert (bvult k #x00000005))
+(assert (not (= (bvand x (bvshl #x00000001 k)) (bvmul (bvshl #x00000001 k) (bvurem (bvudiv x (bvshl #x00000001 k)) #x00000002)))))
+(check-sat)
+;;@ end
